@@ -3,6 +3,7 @@ package main
 // Elaboration of spec expressions into SMT terms against a symbolic state.
 
 import (
+	"math"
 	"fmt"
 	"go/constant"
 	"go/token"
@@ -25,6 +26,9 @@ type Env struct {
 	old   *State
 	local func(name string) (SVal, bool)
 	depth int
+	// loop invariants only: the state at loop entry and its locals, for entry(e)
+	entrySt    *State
+	entryLocal func(name string) (SVal, bool)
 	// when elaborating a pure-function body in probe mode
 	probing map[string]bool
 }
@@ -129,6 +133,22 @@ func (e *Env) parseType(txt string) types.Type {
 					}
 				}
 			}
+			// the package itself under its own name (extern contracts are elaborated in the callee's package)
+			if e.pkg.Name() == prefix {
+				tv2, err2 := types.Eval(token.NewFileSet(), e.pkg, token.NoPos, stars+txt[i+1:])
+				if err2 == nil && tv2.IsType() {
+					return tv2.Type
+				}
+			}
+			// a package imported by the contract's package (e.g. gonum's mat.Dense)
+			for _, imp := range e.pkg.Imports() {
+				if imp.Name() == prefix {
+					tv2, err2 := types.Eval(token.NewFileSet(), imp, token.NoPos, stars+txt[i+1:])
+					if err2 == nil && tv2.IsType() {
+						return tv2.Type
+					}
+				}
+			}
 		}
 		// composite type text mentioning (possibly unexported) types of one other repository package,
 		// e.g. map[string]*align.seq: evaluate it inside that package with the qualifier removed
@@ -211,6 +231,22 @@ func (e *Env) elab(x SExpr) SVal {
 		}
 		return SVal{T: Exists(bound, body.T), Typ: tBool}
 	case SField:
+		// pkg.Name: exported constant or variable of a package imported by the package of the contract
+		if id, ok := x.X.(SIdent); ok && e.pkg != nil {
+			_, isVar := e.vars[id.Name]
+			if !isVar && e.local != nil {
+				_, isVar = e.local(id.Name)
+			}
+			if !isVar && e.pkg.Scope().Lookup(id.Name) == nil {
+				for _, imp := range e.pkg.Imports() {
+					if imp.Name() == id.Name {
+						if obj := imp.Scope().Lookup(x.Name); obj != nil && obj.Exported() {
+							return e.pkgObject(obj)
+						}
+					}
+				}
+			}
+		}
 		return e.field(e.elab(x.X), x.Name)
 	case SIndex:
 		return e.index(e.elab(x.X), e.elab(x.I))
@@ -255,6 +291,45 @@ func (e *Env) ident(name string) SVal {
 	return SVal{}
 }
 
+// unroundConst undoes the float64 rounding of a compile-time constant. The
+// float models ignore rounding ("exact reals on finite values"), but go/types
+// hands out typed float constants already rounded to float64 (the source
+// expression -4.0/3.0 arrives as 6004799503160661/4503599627370496), which would
+// make the constants the only rounded values of the model. The constant is
+// replaced by the first continued-fraction convergent that rounds to the very
+// same float64, provided its denominator is small (<= 10^6); by Legendre's
+// theorem this is the source rational p/q whenever q is small. Constants that
+// are short binary fractions already (0.25, 2.0) are left alone.
+func unroundConst(r *big.Rat) *big.Rat {
+	if r.IsInt() || r.Denom().BitLen() <= 20 {
+		return r
+	}
+	f, exact := r.Float64()
+	if !exact || f == 0 || math.IsInf(f, 0) {
+		return r
+	}
+	limit := big.NewInt(1000000)
+	// convergents h/k of r
+	h0, h1 := big.NewInt(0), big.NewInt(1)
+	k0, k1 := big.NewInt(1), big.NewInt(0)
+	num, den := new(big.Int).Set(r.Num()), new(big.Int).Set(r.Denom())
+	for den.Sign() != 0 {
+		a, rem := new(big.Int).DivMod(num, den, new(big.Int)) // floor division (den > 0)
+		h2 := new(big.Int).Add(new(big.Int).Mul(a, h1), h0)
+		k2 := new(big.Int).Add(new(big.Int).Mul(a, k1), k0)
+		h0, h1, k0, k1 = h1, h2, k1, k2
+		if k1.Cmp(limit) > 0 {
+			return r
+		}
+		c := new(big.Rat).SetFrac(h1, k1)
+		if g, _ := c.Float64(); g == f {
+			return c
+		}
+		num, den = den, rem
+	}
+	return r
+}
+
 func constTerm(c constant.Value, typ types.Type) *Term {
 	switch c.Kind() {
 	case constant.Int:
@@ -268,6 +343,14 @@ func constTerm(c constant.Value, typ types.Type) *Term {
 		return IntLitBig(n)
 	case constant.Float:
 		r, ok := new(big.Rat).SetString(c.ExactString())
+		if ok && (typ == nil || sortOf(typ) == SReal || sortOf(typ) == SXReal) {
+			// canonical value of a float constant: round to float64 (what the compiled
+			// code holds; an untyped package constant such as DBL_MIN reaches the spec
+			// side unrounded), then undo the rounding of short rationals
+			if f, _ := r.Float64(); !(f == 0 && r.Sign() != 0) && !math.IsInf(f, 0) {
+				r = unroundConst(new(big.Rat).SetFloat64(f))
+			}
+		}
 		if !ok {
 			f, _ := constant.Float64Val(c)
 			if typ != nil && sortOf(typ) == SXReal {
@@ -514,6 +597,17 @@ func (e *Env) call(x SCall) SVal {
 		n.cur = e.old
 		// old() changes the heap that is read; local variables keep their
 		// current values (parameters are bound to their entry values anyway)
+		return n.elab(x.Args[0])
+	case "entry":
+		// entry(e): e evaluated in the state at the entry of the loop whose
+		// invariant is being elaborated (heap and locals as at loop entry)
+		argn(1)
+		if e.entrySt == nil {
+			efail("entry() is only available in loop invariants")
+		}
+		n := *e
+		n.cur = e.entrySt
+		n.local = e.entryLocal
 		return n.elab(x.Args[0])
 	case "len":
 		argn(1)
